@@ -479,6 +479,19 @@ def origKeys (h : Heap) : List Nat → Option (List Nat)
       | none => none
     | _ => none
 
+/-- the (re)initialisers on a free-standing object at `t` — `cif_value_init(v, kind)`, `cif_value_init_char`,
+    `cif_value_copy_char`, `cif_value_parse_numb`: the previous content is released (`cif_value_clean`), then the components
+    of the new value `x` are allocated and recorded in the object -/
+def reinitH (fuel : Nat) (h : Heap) (t : Nat) (x : V) : Option Heap :=
+  match read h t with
+  | some (.val old) =>
+    match cleanVal fuel h old with
+    | none => none
+    | some h1 =>
+      match buildVal h1 x with
+      | (new, h2) => write h2 t (.val new)
+  | _ => none
+
 /-- `cif_map_get_keys`: an array of `count + 1` pointers to the entries' ORIGINAL keys (borrowed, not copied); the caller
     releases the array only -/
 def getKeysH (h : Heap) (ents : List Nat) : Option (Nat × List Nat × Heap) :=
